@@ -304,6 +304,9 @@ def run_c09(ck, fb, fbd):
     # an index swap relabels the per-halfedge lists in place: relabelling a shared list twice leaves the old order (shared with C17)
     from .lockstep import relabel_rules
     relabel_rules(c)
+    # the order is observed through the halfedge-halfface circulator: its stepping protocol (shared with C05)
+    from .c05 import circulators
+    circulators(ck, fb)
     cm = c.cm
     ck.rule("C09.trigger", "reorder_incident_halffaces(e) is called for the affected edges in add_cell, delete_face_core (after the unlink), delete_cell_core (after the incident-cell reset) and in enable_edge/face_bottom_up_incidences - in every deletion mode (no deferred/fast condition), exactly when both the edge and the face kind are available")
     ck.rule("C09.walk", "inside reorder_incident_halffaces the forward walk appends and steps with adjacent_halfface_in_cell + opposite_halfface_handle along the halfedge, the backward walk uses the opposite halfedge and prepends (front insertion / reverse range), both walks abort when they outgrow the stored list, and the ordered list is written back together with its mirrored reverse for the opposite halfedge")
@@ -351,6 +354,10 @@ def run_c09(ck, fb, fbd):
                             thr = 1 if m.group(3) == "0" else 99
                     elif re.match(r"^(.*\.)?empty\(\)$", cnd) and pol is False:
                         thr = 1
+                    if thr is None and (cnd.startswith("has_") and cnd.endswith("bottom_up_incidences()")):
+                        # another availability predicate (vertex kind, 'full'): the re-ordering needs the edge and the face kind only
+                        ok = False
+                        continue
                     if thr is None:
                         raise AnalysisBroken("%s: %s re-orders under the additional condition %s%s which rule C09.trigger cannot judge - re-audit" % (g.loc(n), name, "" if pol else "!", cnd))
                     if thr > 2:
